@@ -14,7 +14,7 @@ open(p,'w').write(s)
 PY
 [ $? -eq 0 ] || exit 9
 git diff --stat | tail -1
-T=$(/venv/bin/python -m pytest -q -p no:cacheprovider -x -q 2>&1 | tail -1)
+T=$(/venv/bin/python -m pytest -q -p no:cacheprovider 2>&1 | tail -1)
 echo "tests: $T"
 cd /verif
 ./check $PROP --quick 2>&1 | grep -E "VIOLATION|UNDECIDED|CHECKER|quick:" | head -8
